@@ -164,6 +164,7 @@ func (w *World) verifyFunction(c *Contract) (res *FuncResult) {
 	}
 	vc.frameObligations(c, args, out)
 	vc.dispatchObligations(fr, c)
+	vc.callsiteCoverage(c)
 	// per-label solver budgets apply to every obligation that stems from a clause with that label
 	for lab, secs := range c.Raw.Slow {
 		for _, o := range vc.obls {
@@ -317,6 +318,9 @@ func (vc *VC) frameObligations(c *Contract, args []Val, out *State) {
 		case strings.HasPrefix(name, "Z!rv"):
 			// abstract field store: cells of pre-existing objects (object 0 is "no object")
 			conds = append(conds, app("bvult", key, "alloc0"), not(eq(key, bvLit(64, 0))))
+		case name == "Z!wpos" || name == "Z!outb":
+			// output of writer objects that existed before the call (a buffer created here is the function's own)
+			conds = append(conds, app("bvult", key, "alloc0"))
 		}
 		for ki, kk := range keys {
 			if c := by[name][ki].cond; c != "" {
